@@ -25,7 +25,7 @@ RULE += ('; also: coroutine and callable-object callbacks outliving their step, 
 ASSUMPTIONS = ['samples in ProcessListener callbacks are not part of the statement (recorded only)',
                'nested execution relies on nest_asyncio as configured by plumpy.set_event_loop_policy()']
 REQUIRED = ['samples/step', 'samples/hook', 'samples/callback', 'samples/outside', 'concurrent_runs', 'nested_runs', 'children', 'where/after-await',
-            'where/after-launch', 'where/after-nested', 'where/after-inline', 'outside_runner', 'parent_controlled_by_child', 'cleanup_callbacks', 'bound_method_callbacks', 'where/after-collect']
+            'where/after-launch', 'where/after-nested', 'where/after-inline', 'outside_runner', 'parent_controlled_by_child', 'cleanup_callbacks', 'bound_method_callbacks', 'where/after-collect', 'own_waiting_state_samples', 'falsy_processes']
 BOUNDS = {'quick': '150 random concurrent sets + 24 nested scenarios', 'thorough': '1500 random concurrent sets + 200 nested scenarios'}
 TIMEOUT = {'quick': 900, 'thorough': 3600}
 
@@ -68,7 +68,7 @@ def _rand_script(rng, depth, allow_nested, name_hint=''):
         segs.append(ops)
     if any(op[0] == 'launch' for seg in segs for op in seg):
         segs[-1].append(['await_children'])
-    return {'segments': segs, 'sync': rng.random() < 0.3}
+    return {'segments': segs, 'sync': rng.random() < 0.3, 'falsy': rng.random() < 0.25}
 
 
 def gen_cases(tier, seed):
@@ -143,6 +143,8 @@ def _obs(log, outside):
     obs['bound_method_callbacks'] = sum(1 for _n, kind, where, _ok, _c in log if kind == 'callback' and 'bound-method-of-' in where and not where.endswith('self'))
     obs['outside_runner'] = sum(1 for w, _c in outside if w == 'runner-after')
     obs['parent_controlled_by_child'] = sum(1 for _n, kind, where, _ok, _c in log if kind == 'step' and 'after-parent-' in where)
+    obs['own_waiting_state_samples'] = sum(1 for _n, kind, where, _ok, _c in log if kind == 'step' and where.startswith('waiting-state:'))
+    obs['falsy_processes'] = sum(1 for n in names if n in curprog.PROCS and len(curprog.PROCS[n]) == 0)
     obs['children'] = sum(1 for n in names if '.' in n)
     obs['processes'] = len(names)
     return obs, names
